@@ -176,6 +176,9 @@ async fn run_async(max: u64, ops: &[IOp]) -> IOut {
     // oracle state
     let mut max_acked: u64 = 0;
     let mut max_mark: u64 = 0;
+    // acknowledged writes (seq, payload length) and the largest bound ever passed to truncate_before
+    let mut acked: Vec<(u64, u64)> = Vec::new();
+    let mut max_bound: u64 = 0;
 
     for (at, op) in ops.iter().enumerate() {
         match op {
@@ -199,6 +202,20 @@ async fn run_async(max: u64, ops: &[IOp]) -> IOut {
                         let above: Vec<u64> = scan_wal(&dirp).iter().flat_map(|s| s.1.iter().map(|e| e.0)).filter(|s| *s > fl).collect();
                         last_wal_seq = above.iter().copied().max().unwrap_or(0);
                         buffered = !above.is_empty();
+                        if fl > 0 {
+                            max_bound = max_bound.max(fl + 1);
+                        }
+                        // oracle: truncate_before(b) may only remove entries below b, so every
+                        // acknowledged entry at or above every bound is still in the log
+                        let present: Vec<(u64, u64)> = scan_wal(&dirp).iter().flat_map(|s| s.1.iter().copied()).collect();
+                        for (seq, len) in acked.iter() {
+                            if *seq >= max_bound && !present.contains(&(*seq, *len)) {
+                                failures.push(format!(
+                                    "op {}: acknowledged write with sequence number {} is not in the log after the restart (entries in the log {:?}; largest truncation bound so far {}; mark on disk {})",
+                                    at, seq, present.iter().map(|e| e.0).collect::<Vec<_>>(), max_bound, fl));
+                                break;
+                            }
+                        }
                         ing = Some(Arc::new(fresh));
                         impl_toks.push("m".into());
                     }
@@ -242,10 +259,16 @@ async fn run_async(max: u64, ops: &[IOp]) -> IOut {
                             mtoks.push(format!("X {} {}", pidx, keep));
                         } else {
                             max_acked = max_acked.max(seq);
+                            acked.push((seq, pl.len() as u64));
                             mtoks.push(format!("A {}", pidx));
                         }
                     }
                     (r, _) => {
+                        if r.is_ok() {
+                            failures.push(format!(
+                                "op {}: the write was acknowledged but no new complete entry appeared in the segment files of the WAL directory ({} entries before, {} after): it cannot be recovered after a crash",
+                                at, before, after));
+                        }
                         impl_toks.push(format!("{}:ERR {:?} (entries {} -> {})", tag, r.err().map(|e| e.to_string()), before, after));
                         mtoks.push(format!("A {}", pidx));
                     }
@@ -286,6 +309,9 @@ async fn run_async(max: u64, ops: &[IOp]) -> IOut {
                 let tok = if !flushes {
                     "C".to_string()
                 } else {
+                    if !matches!((op, stopped), (IOp::FLC(0), true)) {
+                        max_bound = max_bound.max(s); // truncate_before(last_wal_seq) was reached
+                    }
                     match (op, stopped) {
                         (IOp::FLC(0), true) => "C".to_string(),
                         (IOp::FLC(1), true) => format!("HT {}", s),
@@ -399,6 +425,12 @@ pub fn gen(rng: &mut Rng, report: &mut Report) -> (u64, Vec<IOp>) {
             ops.push(IOp::FL);
             report.bump("ingester.flush_complete_shutdown");
             up = false;
+            if rng.chance(1, 2) {
+                // flush everything, restart, write below any threshold, crash, restart
+                ops.extend([IOp::RS, IOp::W(rng.range_usize(1, 3)), IOp::CR, IOp::RS]);
+                up = true;
+                report.bump("ingester.flush_all_restart_write_crash_restart");
+            }
         } else if r < 86 {
             let p = rng.below(3) as u8;
             ops.push(IOp::FLC(p));
@@ -438,6 +470,10 @@ pub fn corpus() -> Vec<(u64, Vec<IOp>)> {
         (2_000, vec![IOp::RS, IOp::W(1), IOp::W(1), IOp::W(1), IOp::WX(2, 10), IOp::RS, IOp::FLC(1), IOp::RS, IOp::W(1)]),
         // complete flushes and restarts only
         (900, vec![IOp::RS, IOp::W(1), IOp::W(1), IOp::FL, IOp::RS, IOp::W(1), IOp::FL, IOp::RS, IOp::CR, IOp::RS, IOp::W(1), IOp::FLC(2), IOp::RS, IOp::W(1)]),
+        // everything is flushed, restart (ensure_wal truncates up to the mark: the ACTIVE segment is
+        // fully flushed and must stay), one write, crash, restart: the write must still be there
+        (64 << 20, vec![IOp::RS, IOp::W(1), IOp::W(2), IOp::FL, IOp::RS, IOp::W(1), IOp::CR, IOp::RS, IOp::W(1)]),
+        (2_000, vec![IOp::RS, IOp::W(1), IOp::FL, IOp::RS, IOp::W(1), IOp::W(1), IOp::CR, IOp::RS, IOp::W(1), IOp::CR, IOp::RS]),
         // crash before the truncate, empty-buffer flush, default segment size
         (64 << 20, vec![IOp::RS, IOp::W(3), IOp::FLC(0), IOp::RS, IOp::FL, IOp::RS, IOp::FL, IOp::RS, IOp::W(1)]),
     ]
